@@ -35,11 +35,11 @@ def fixed_items():
                     if kind == "tuple":
                         v.fields = [Field("u8"), Field("String")]
                     elif kind == "named":
-                        v.fields = [Field("i32", "a"), Field("String", "b")]
+                        v.fields = [Field("i32", "f"), Field("String", "s")]      # names the generated fmt / from_str use themselves
                     v.metas = [tos(nm)] if how == "tos" else [ser(nm)]
                     vs.append(v)
             vs.append(Variant("PlainIdent%s" % kind.title(), kind,
-                              [Field("u8")] if kind == "tuple" else ([Field("u8", "q")] if kind == "named" else [])))
+                              [Field("u8")] if kind == "tuple" else ([Field("u8", "f")] if kind == "named" else [])))
         for i in range(0, len(vs), 10):
             items.append(Item("E", vs[i:i + 10], metas=([EM("prefix", pf)] if pf is not None else []) +
                               ([EM("sall", "SCREAMING-KEBAB-CASE")] if i % 20 == 0 else [])))
@@ -49,16 +49,16 @@ def fixed_items():
 def placeholder_items():
     items = []
     # named fields: all subsets / orders
-    fields = [Field("u8", "a"), Field("String", "bb"), Field("i32", "c_3")]
+    fields = [Field("u8", "f"), Field("String", "bb"), Field("i32", "c_3")]       # `f` is also the usual name of the formatter
     vs = []
     n = 0
     for r in range(1, 4):
-        for combo in itertools.permutations(["a", "bb", "c_3"], r):
+        for combo in itertools.permutations(["f", "bb", "c_3"], r):
             n += 1
             lit = " / ".join("{%s}" % x for x in combo)
             vs.append(Variant("N%d" % n, "named", [Field(f.ty, f.name) for f in fields], [tos("n%d: %s" % (n, lit))]))
-    extra = ["{a:>5}|{bb:^9}|{c_3:+}", "{{{a}}}", "{{a}} {a}", "{a}{a}{a}", "{bb:.2}", "{c_3:08}", "{a:#x} {a:#b}", "}}{{ {bb} }}{{",
-             "{a }", "{bb:é^7}", "{c_3:<+6}"]
+    extra = ["{f:>5}|{bb:^9}|{c_3:+}", "{{{f}}}", "{{f}} {f}", "{f}{f}{f}", "{bb:.2}", "{c_3:08}", "{f:#x} {f:#b}", "}}{{ {bb} }}{{",
+             "{f }", "{bb:é^7}", "{c_3:<+6}"]
     for e in extra:
         n += 1
         vs.append(Variant("N%d" % n, "named", [Field(f.ty, f.name) for f in fields], [tos(e)]))
